@@ -140,3 +140,10 @@ PROPS["C09"] = {
     "rule": "seeded ASTs (<= 3 rules) + in 45% of the cases a rule whose span bounds sit at a transition's wall-clock times +-1/15 min x zone x instant (75% within +-48 h of a transition of a sampled year 1900..2100, bias to +-90 min and to +-1 s/+-1 min) x input expressed in 3 other zones x window of 1 min..4 days. Non-trivial: every checked instant; distinct by hash of (AST, zone, instant).",
     "assumptions": ["chrono-tz's database and LocalResult are shared with the implementation: a wrong database is out of scope, a wrong use of it is what is monitored", "naive evaluation is the reference (C01-C03)"],
 }
+
+PROPS["C11"] = {
+    "technique": "physical-invariant monitor on event instants and on evaluation with inferred contexts, plus acceptance-boundary probing of the coordinate validator",
+    "level_text": "Without coordinates, event-based spans with offsets must sit at 06:00/07:00/19:00/20:00 on random dates (naive and zoned contexts). Coordinate pairs from a boundary set (+-90, +-180, +-1 ulp, +-inf, NaN, huge) and random ones must be accepted iff within range and not NaN. Every accepted pair (5-degree global grid incl. poles and antimeridian, random sites, 40 cities) must yield a zone and evaluate without panic; below 60 degrees the five event instants must be strictly ordered, solar noon within 25 min of mean solar noon, the day's schedule must show exactly the local event times, 'sunrise-sunset' open at solar noon and closed 12 h away, the inferred zone within 5 h of mean solar time, and reference cities mapped to a zone with their offsets. Exploration.",
+    "rule": "seeded: per case one default-event check (random date 1900..9999, two events with offsets, random zone), four coordinate-pair acceptance probes, and one site (60% random with |lat| <= 60, 10% at latitude boundaries/poles, 10% at the antimeridian, 20% near a reference city) on a date of 1900..2100 (solstices and equinoxes over-weighted). Non-trivial = site check completed; distinct by hash of (lat, lon, date). The open-at-noon/closed-at-midnight probe is made only when all five events fall on the same local calendar day (abstained_wrap otherwise).",
+    "assumptions": ["the astronomy of the `sunrise` crate is trusted up to the physical-ordering checks", "tzf-rs/chrono-tz data are trusted; only their use is monitored"],
+}
